@@ -8,6 +8,9 @@
 #include <errno.h>
 #include <signal.h>
 #include <time.h>
+#include <locale.h>
+
+extern "C" char pseudo_state[8];
 
 namespace env {
 
@@ -453,8 +456,10 @@ void monitor_access(const void* addr, unsigned size, bool store) {
             u8 conflict = store ? ((G.r[u] | G.w[u]) & m) : (G.w[u] & m);
             if (conflict && !E.mon_violation.found) {
                 E.mon_violation.found = true; E.mon_violation.oracle = "R"; E.mon_violation.cls = "data-race";
-                E.mon_violation.msg = strf("unsynchronised %s by task %d and %s by task %d to the same shared byte(s) (library static at image offset class %s)",
-                    store ? "store" : "load", t->id, (G.w[u] & m) ? "store" : "load", u, E.in_setup ? "setup" : "run");
+                const char* where = ((const char*)addr >= pseudo_state && (const char*)addr < pseudo_state + 8) ?
+                    "the hidden static state of a non-reentrant C library function (strtok/localtime/strerror/setlocale family)" : "a static object of the library";
+                E.mon_violation.msg = strf("unsynchronised %s by task %d and %s by task %d to the same byte(s) of %s, during %s",
+                    store ? "store" : "load", t->id, (G.w[u] & m) ? "store" : "load", u, where, t->cur ? OP_NAMES[t->cur->op.kind] : "?");
             }
         }
         if (store) { G.w[t->id] |= m; E.shared_stores++; if (E.write_chase && t->preemptible && E.sched_rng.chance(1, 2)) t->countdown = 1; } else G.r[t->id] |= m;
@@ -507,6 +512,19 @@ size_t sim_strlen(const char* a) { size_t n = strlen(a); mem_range(a, n + 1, fal
 char* sim_strcpy(char* d, const char* s) { size_t n = strlen(s) + 1; mem_range(s, n, false); mem_range(d, n, true); return strcpy(d, s); }
 char* sim_strncpy(char* d, const char* s, size_t n) { mem_range(s, strnlen(s, n), false); mem_range(d, n, true); return strncpy(d, s, n); }
 int sim_strncmp(const char* a, const char* b, size_t n) { mem_range(a, strnlen(a, n), false); mem_range(b, strnlen(b, n), false); return strncmp(a, b, n); }
+
+// libc functions with hidden static state: a call is a store to that state as far as the race oracle is concerned
+char pseudo_state[8];
+static void touches_hidden_state(int which) { if (tls_task && E.monitor) monitor_access(&pseudo_state[which & 7], 1, true); }
+char* sim_strtok(char* s, const char* d) { touches_hidden_state(0); return strtok(s, d); }
+struct tm* sim_localtime(const time_t* t) { touches_hidden_state(1); return localtime(t); }
+struct tm* sim_gmtime(const time_t* t) { touches_hidden_state(1); return gmtime(t); }
+char* sim_ctime(const time_t* t) { touches_hidden_state(1); return ctime(t); }
+char* sim_asctime(const struct tm* t) { touches_hidden_state(1); return asctime(t); }
+char* sim_strerror(int e) { touches_hidden_state(2); return strerror(e); }
+char* sim_setlocale(int c, const char* l) { touches_hidden_state(3); return setlocale(c, l); }
+void sim_qsort(void* base, size_t n, size_t sz, int (*cmp)(const void*, const void*)) { mem_range(base, n * sz, true); qsort(base, n, sz, cmp); }
+void* sim_bsearch(const void* key, const void* base, size_t n, size_t sz, int (*cmp)(const void*, const void*)) { mem_range(base, n * sz, false); return bsearch(key, base, n, sz, cmp); }
 
 #ifdef POLYSIM_ASAN
 void* __asan_memcpy(void*, const void*, size_t); void* __asan_memmove(void*, const void*, size_t); void* __asan_memset(void*, int, size_t);
